@@ -10,6 +10,7 @@ pub mod c20;
 pub mod mb;
 pub mod mbchecks;
 pub mod wire13;
+pub mod wirechecks;
 
 use crate::runner::{PartOutcome, RunCtx, Viol};
 use serde_json::Value;
